@@ -261,6 +261,7 @@ type Set struct {
 	InInjectFile bool   `json:"in_inject_file,omitempty"`
 	Inline       bool   `json:"inline,omitempty"`   // written as wire.NewSet(...) wherever referenced
 	AliasOf      int    `json:"alias_of,omitempty"` // id+1 of the set variable this one is an alias of (var A = B); 0 = none
+	Grouped      bool   `json:"grouped,omitempty"`  // declared inside a var ( ... ) group
 }
 
 // Param is an injector parameter.
